@@ -171,6 +171,7 @@ func NewNNSDriver(mode string) *NNSDriver {
 			add(nnsOp{kind: "time", step: st})
 		}
 	case "C11":
+		d.pre = []string{"aa.com", "x.aa.com"} // both start as U1's, which saves two levels of depth
 		d.names = []string{"aa.com", "x.aa.com", "z.aa.com", "z.x.aa.com"}
 		add(
 			nnsOp{kind: "register", name: "aa.com", who: "U1", signer: s("U1")},
